@@ -1227,7 +1227,13 @@ macro_rules! impl_proto {
             fn batteries_run(key: &KeyMat, ops: &[BOp]) -> Vec<Out<String>> {
                 let mut cur_key: KeyMat = key.clone();
                 let mut outs = Vec::new();
-                let mut b = PasetoBuilder::<$V, $Pu>::default();
+                // creation reads the clock and adds an hour: at the very end of the representable range it may refuse (panic)
+                let (created, _) = guard(|| -> Result<PasetoBuilder<'_, $V, $Pu>, PasetoClaimError> { Ok(PasetoBuilder::<$V, $Pu>::default()) }, claim_err);
+                let mut b = match created {
+                    Out::Ok(b) => b,
+                    Out::Panic(loc) => return vec![Out::Err(format!("BuilderCreation/panic {}", loc))],
+                    Out::Err(e) => return vec![Out::Err(format!("BuilderCreation/{}", e))],
+                };
                 for op in ops {
                     match op {
                         BOp::Set(c) => {
